@@ -29,12 +29,15 @@ pub struct RCase {
     pub check_png: bool,
 }
 
-pub const COLOUR_PAIRS: [([u8; 4], [u8; 4], &str); 5] = [
+pub const COLOUR_PAIRS: [([u8; 4], [u8; 4], &str); 6] = [
     ([0, 0, 0, 255], [255, 255, 255, 255], "black on white"),
     ([255, 255, 255, 255], [0, 0, 0, 255], "white on black"),
     ([255, 0, 0, 255], [0, 0, 0, 0], "red on fully transparent"),
     ([0, 0, 255, 255], [255, 255, 0, 255], "blue on yellow"),
     ([16, 32, 48, 255], [250, 128, 1, 255], "dark slate on orange"),
+    // anti-aliased edges of non-square shapes get partial alpha with channels that are neither 0 nor 255: the PNG
+    // bytes must still decode to the pixmap (premultiplied / straight alpha conversions done once, not twice)
+    ([30, 136, 229, 255], [0, 0, 0, 0], "azure on fully transparent"),
 ];
 pub const NPAIRS: usize = COLOUR_PAIRS.len();
 
@@ -247,7 +250,7 @@ pub fn replay(case: &Value) -> Result<Vec<(String, String)>, String> {
 
 pub fn run(ctx: &Ctx) -> Collector {
     let col = Collector::new("C13", "exploration");
-    col.set_rule("cases = (a) square shape at original scale: all 40 versions x margins {0,4} x 3 colour pairs, every pixel exact; (b) 6 shapes x versions x margins x fits {width kS, height kS for k in 4,5,8; (w,h) with w != h in both orders; non-integer scale kS+3} x 5 colour pairs {black/white, white/black, red on fully transparent, blue/yellow, slate/orange} (quick: versions {1,2,7,40}, margins {0,4}, colour pair rotated per case, plus every version x every shape at 4 pixels per module; thorough: all 40 versions, margins {0,1,4}, full product); oracle: pixmap square with the requested side, centre pixel of every dark module = module colour, of every light module and quiet-zone cell = background (scale >= 4), every pixel of every cell for the square shape at integer scale, and to_bytes() decoded by an independent PNG reader (own inflate, CRC-32, Adler-32, unfilter) equals the de-multiplied pixmap, also on a builder that has rendered another symbol of the same size before; non-trivial = a pixmap was rendered; distinct = distinct pixel buffers");
+    col.set_rule("cases = (a) square shape at original scale: all 40 versions x margins {0,4} x 3 colour pairs, every pixel exact; (b) 6 shapes x versions x margins x fits {width kS, height kS for k in 4,5,8; (w,h) with w != h in both orders; non-integer scale kS+3} x 6 colour pairs {black/white, white/black, red on fully transparent, blue/yellow, slate/orange, azure on fully transparent} (quick: versions {1,2,7,40}, margins {0,4}, colour pair rotated per case, plus every version x every shape at 4 pixels per module; thorough: all 40 versions, margins {0,1,4}, full product); oracle: pixmap square with the requested side, centre pixel of every dark module = module colour, of every light module and quiet-zone cell = background (scale >= 4), every pixel of every cell for the square shape at integer scale, and to_bytes() decoded by an independent PNG reader (own inflate, CRC-32, Adler-32, unfilter) equals the de-multiplied pixmap, also on a builder that has rendered another symbol of the same size before; non-trivial = a pixmap was rendered; distinct = distinct pixel buffers");
     col.assume("module colours opaque, background alpha 0 or 255: the expected pixel is the colour itself, no blending rule assumed");
     col.assume("resvg/usvg/tiny-skia/png are part of the subject as linked; fit sizes below 4 pixels per module are checked for size only (square shape at integer scale >= 1: every pixel)");
     let thorough = ctx.tier.thorough();
@@ -329,7 +332,7 @@ pub fn run(ctx: &Ctx) -> Collector {
             }
         }
     });
-    col.space(json!({"name": "original scale", "cases": n_a, "what": "square shape, all 40 versions x margins {0,4} x 5 colour pairs, every pixel + PNG round trip", "exhaustive": true}));
+    col.space(json!({"name": "original scale", "cases": n_a, "what": "square shape, all 40 versions x margins {0,4} x 6 colour pairs, every pixel + PNG round trip", "exhaustive": true}));
     col.space(json!({"name": "shapes x fits", "cases": cases.len() - n_a, "what": format!("6 shapes x versions {:?} x margins {:?} x 9 fit requests x colour pairs (+ small integer fits for the square shape; quick: + all 40 versions x 6 shapes at 4 pixels per module)", vers, margins), "exhaustive": true}));
     col.sample(cases[0].to_json());
     col.sample(cases[n_a].to_json());
